@@ -527,9 +527,16 @@ func AggTables(rt *rapid.T) []model.Stmt {
 	var out []model.Stmt
 	t0 := model.Stmt{Kind: "create", Table: "t0", Cols: []model.Col{
 		{Name: "g1", Type: model.TInt}, {Name: "g2", Type: model.TVarchar, Len: 16}, {Name: "n", Type: model.TInt},
-		{Name: "v", Type: model.TInt}, {Name: "w", Type: model.TBigInt}, {Name: "g3", Type: model.TVarchar, Len: 16},
-		// a boolean and a BIGINT grouping column; the BIGINT's values are neighbours beyond 2^53 and at the ends of the range
-		{Name: "f", Type: model.TBool}, {Name: "h", Type: model.TBigInt}}}
+		{Name: "v", Type: model.TInt}, {Name: "w", Type: model.TBigInt}, {Name: "g3", Type: model.TVarchar, Len: 16}}}
+	// a boolean and / or a BIGINT grouping column (the BIGINT's values are neighbours beyond 2^53 and at the ends of
+	// the range): the table has six, seven or eight columns - widths matter where rows are merged and copied
+	hasF, hasH := rapid.Bool().Draw(rt, "hasf"), rapid.Bool().Draw(rt, "hash")
+	if hasF {
+		t0.Cols = append(t0.Cols, model.Col{Name: "f", Type: model.TBool})
+	}
+	if hasH {
+		t0.Cols = append(t0.Cols, model.Col{Name: "h", Type: model.TBigInt})
+	}
 	t0.SQL = RenderStmt(Plain(), t0)
 	out = append(out, t0)
 	nrows := rapid.SampledFrom([]int{0, 1, 2, 3, 4, 5, 8, 12, 20, 40, 60}).Draw(rt, "nrows")
@@ -565,12 +572,14 @@ func AggTables(rt *rapid.T) []model.Stmt {
 			row = append(row, model.Int(int64(rapid.IntRange(0, 3).Draw(rt, "v"))), model.Int(int64(rapid.IntRange(-3, 9).Draw(rt, "w"))))
 		}
 		row = append(row, model.Str(rapid.SampledFrom([]string{"b", "a,b", "", "2", "b,", ",b", "nil"}).Draw(rt, "g3")))
-		if rapid.IntRange(0, 5).Draw(rt, "fnull") == 0 {
+		if !hasF {
+		} else if rapid.IntRange(0, 5).Draw(rt, "fnull") == 0 {
 			row = append(row, model.Null())
 		} else {
 			row = append(row, model.Bool(rapid.Bool().Draw(rt, "f")))
 		}
-		if rapid.IntRange(0, 7).Draw(rt, "hnull") == 0 {
+		if !hasH {
+		} else if rapid.IntRange(0, 7).Draw(rt, "hnull") == 0 {
 			row = append(row, model.Null())
 		} else {
 			row = append(row, model.Int(rapid.SampledFrom([]int64{0, 1, 1 << 53, 1<<53 + 1, 1<<53 + 2, -(1 << 53), -(1 << 53) - 1,
@@ -626,9 +635,19 @@ func AggQuery(rt *rapid.T, db *model.DB) Select {
 	}
 	// grouping columns
 	ng := rapid.SampledFrom([]int{0, 0, 0, 1, 1, 1, 2, 2, 2, 3, 3, 4, 5, 6}).Draw(rt, "ngroup")
-	gpool := []string{"g1", "g2", "n", "g3", "f", "h"}
+	gpool := []string{"g1", "g2", "n", "g3"}
+	ccols := []string{"n", "g2", "v", "g1", "g1", "g3"}
+	for _, extra := range []string{"f", "h"} {
+		if db.Tables["t0"].ColIdx(extra) >= 0 {
+			gpool = append(gpool, extra)
+			ccols = append(ccols, extra)
+		}
+	}
 	if joined {
 		gpool = append(gpool, "z")
+	}
+	if ng > len(gpool) {
+		ng = len(gpool)
 	}
 	gcols := rapid.Permutation(gpool).Draw(rt, "gperm")[:ng]
 	shadow = shadow && ng >= 2
@@ -663,7 +682,7 @@ func AggQuery(rt *rapid.T, db *model.DB) Select {
 		case "count*":
 			it.Kind = "count"
 		case "countcol":
-			c := colRef(rapid.SampledFrom([]string{"n", "g2", "v", "g1", "g1", "g3", "f", "h"}).Draw(rt, "ccol"))
+			c := colRef(rapid.SampledFrom(ccols).Draw(rt, "ccol"))
 			it.Kind, it.Col = "count", &c
 		default:
 			c := colRef(rapid.SampledFrom([]string{"v", "w", "v"}).Draw(rt, "acol"))
